@@ -1475,6 +1475,7 @@ func (n *FunctionNode) MarshalJSON() ([]byte, error) {
 	props := JSONNode{}.
 		Type("func").
 		SetFunctionType("functionType", n.Type).
+		Set("func", n.Func).
 		Set("args", n.Args)
 	return json.Marshal(&props)
 }
@@ -1490,6 +1491,10 @@ func (n *FunctionNode) unmarshal(props JSONNode) error {
 	}
 
 	if n.Type, err = props.FunctionType("functionType"); err != nil {
+		return err
+	}
+
+	if n.Func, err = props.String("func"); err != nil {
 		return err
 	}
 
